@@ -78,6 +78,13 @@ def gen_cases(tier, seed):
                       "mesh": mesh if rng.integers(6) else float(rng.uniform(8, 20)), "shift": shift, "gamma": bool(rng.integers(2)), "tr": bool(rng.integers(4) != 0),
                       "iter": bool(rng.integers(4) == 0), "_cost": 4,
                       "nac": [None, "wang", "gonze"][rng.integers(3)] if name in ("rocksalt", "wurtzite", "zincblende", "rutile", "tric2") else None, "nseed": int(rng.integers(10 ** 6))})
+    # Wang NAC (not periodic in q) on the non-orthogonal polar lattices: every run has several of these, even and odd meshes, Gamma-centred or not
+    for b in range(9 if tier == "quick" else 60):
+        name = ["wurtzite", "rocksalt", "zincblende"][b % 3]
+        k = int(rng.integers(2, 6))
+        cases.append({"kind": "phonon", "crystal": {"name": name, "order": "asis", "order_seed": 0}, "mesh": [k, k, int(rng.integers(2, 5))] if name == "wurtzite" else [k, k, k],
+                      "shift": [None, None, [0.5, 0.5, 0.5], [0, 0, 0.5]][int(rng.integers(4))], "gamma": bool(rng.integers(2)), "tr": bool(rng.integers(4) != 0), "iter": False, "_cost": 4,
+                      "nac": "wang", "nseed": int(rng.integers(10 ** 6))})
     return cases
 
 
@@ -279,7 +286,10 @@ def run_case(c):
         sc_ = max(np.abs(y[fin]).max() if fin.any() else 0, 1e-12)
         e = np.abs(x[fin] - y[fin]).max() if fin.any() else 0
         obs["n_quantity_compared"] = obs.get("n_quantity_compared", 0) + 1
-        if e > 1e-9 * sc_:
+        # Gonze-Lee: the reciprocal-space sum is cut at exp(-...) = 1e-10 and is neither exactly G-periodic nor exactly invariant, so symmetry
+        # images agree only to the reciprocal-sum precision (observed 1e-9..1e-7 relative on the unchanged tree); Wang and no NAC are exact
+        rel = 2e-5 if c.get("nac") == "gonze" else 1e-9
+        if e > rel * sc_:
             bad("sym_on_off", "%s differs with mesh symmetry on vs off by %.3e (scale %.3e)" % (k, e, sc_), quantity=k, **feat)
     obs["phonon_reduced"] = int(a["n_ir"] < b["n_ir"])
     obs["phonon_iter"] = int(c["iter"])
